@@ -289,7 +289,13 @@ class TNDyn(TNOps):
             self.check(abs(e1 - E[-1]) <= tolE, P, 'energy_consistent', lambda: f'<psi|H|psi>={e1!r} vs last reported {E[-1]!r} (sites={sites}, numiter={numiter}, sweeps={numsweeps})')
             self.check(E.max() <= e_start + tolE, P, 'below_start', lambda: f'max reported {E.max()!r} > start energy {e_start!r}')
             self.check(np.all(np.diff(E) <= tolE), P, 'monotone', lambda: f'energies {E.tolist()}')
-            if complete is True and numsweeps >= 2 and locdim <= 32 and numiter >= 2 * locdim:
+            product_op = all(b == 1 for b in bond_dims(H.ref, 'mpo'))
+            if product_op and complete is True:
+                # for a product operator h_1 x ... x h_L the first local optimisation makes the state an exact product
+                # eigenvector at that site, which can be exactly orthogonal to the ground state: the sweep then stays in
+                # that invariant subspace for ever (observed: converges to the second eigenvalue). Not a theorem there.
+                self.skip('dmrg_exact_clause_not_judged_for_product_operator')
+            elif complete is True and numsweeps >= 2 and locdim <= 32 and numiter >= 2 * locdim:
                 gs = evecs[:, np.abs(evals - lam0) <= 1e-9 * max(1.0, nH)]
                 ov = float(np.linalg.norm(gs.conj().T @ v0[idx]))
                 if ov >= 1e-3:
